@@ -430,6 +430,12 @@ class C15Runner:
                 v2 = dict(cfg, endpoints=cfg["endpoints"][:-1],
                           connections=[c for c in cfg["connections"] if gone not in (c["src"], c["dst"])])
                 others.append(v2)
+            # … and the same network with every protocol called something else (what is remembered about one network's
+            # protocols, types or names must not reach the next one)
+            import copy as _copy
+            v3 = _copy.deepcopy(cfg)
+            gen_desc.rename_protocols(v3, {p["name"]: "h_" + p["name"] for p in cfg["protocols"]})
+            others.append(v3)
             rng.shuffle(others)
             order.append((name, len(others)))
             json.dump(others + [cfg], open(hist_in, "w"))
